@@ -84,6 +84,12 @@ def interval(e, env, lens):
     p = path_of(e)
     if p is not None and p in env:
         return env[p]
+    if p is not None and p.split("::")[-1].isupper():
+        cv = _const_value(p.split("::")[-1])
+        if isinstance(cv, int):
+            return (cv, cv)
+        if p.split("::")[-1] == "BITS":
+            return (64, 64) if p.split("::")[-2:-1] in (["u64"], ["usize"]) else (32, 32)
     if e[0] == "mcall" and e[2] == "len" and not e[3]:
         return _iter_len(e[1], lens)
     if e[0] == "call" and len(e[2]) == 1 and (path_of(e[1]) or "").split("::")[-1] == "from":
